@@ -28,6 +28,7 @@ type SpecEnv struct {
 	depth int
 	lets  []*LetDef // macros: evaluated at use in the current environment
 	litType types.Type // bv mode: type given to untyped integer literals (nil = mathematical Int)
+	freshLo, freshHi string // isfresh(x): freshLo <= rootid(x) [< freshHi]; default alloc0 / unbounded
 }
 
 type specError struct{ msg string }
@@ -901,7 +902,14 @@ func (e *SpecEnv) callExpr(v *ast.CallExpr) Val {
 			default:
 				specFail("isfresh of %T", a)
 			}
-			return Scalar{fmt.Sprintf("(>= (rootid %s) alloc0)", r), SBool, boolT}
+			lo := "alloc0"
+			if e.freshLo != "" {
+				lo = e.freshLo
+			}
+			if e.freshHi != "" {
+				return Scalar{fmt.Sprintf("(and (>= (rootid %s) %s) (< (rootid %s) %s))", r, lo, r, e.freshHi), SBool, boolT}
+			}
+			return Scalar{fmt.Sprintf("(>= (rootid %s) %s)", r, lo), SBool, boolT}
 		case "alias":
 			// alias(s, t, k): s is t[k : k+len(s)] (same backing array)
 			a, b := e.eval(v.Args[0]).(SliceV), e.eval(v.Args[1]).(SliceV)
